@@ -4,6 +4,7 @@ import sys, os
 sys.path.insert(0, os.path.dirname(os.path.abspath(__file__)))
 from maps_common import *
 import mainloop, c09, c10, field_common
+from mainsetup import syms_of
 from h5rec import H5Recorder
 
 def alloc_of(snap, addr):
@@ -61,6 +62,32 @@ def job_ps_observers(res, n, nb, pat):
     for fn, args in (('e_integrate', [ps]), ('e_variance', [ps, 0]), ('e_updy', [ps]), ('e_variance', [ps, 1])): st = ex.run1(st, fn, args)
     d1 = get_reals(ex, st, R['data'], nb * n * n) + get_reals(ex, st, R['proj'], nb * n)
     prove(res, 'output-block observers (integrate, variance(0), updateYProjection, variance(1)) leave grid data and position projection unchanged (n=%d nb=%d)' % (n, nb), st.pc, z3.Or(*[a != b for a, b in zip(d0, d1)]), key='frame-phasespace')
+
+def job_heap_independent(res, what, n, nb, it, dt=3, fptype=3):
+    """equal inputs give equal outputs: a map built by its real constructor in storage of arbitrary content (operator new returns unwritten bytes), then one step on symbolic data -
+    no cell of the result may depend on what the storage held, and no decision of constructor or step may (garbage symbols of the executor, see DESIGN 9.14)"""
+    import c08
+    from maps_common import maps_build, maps_world, MAPS_MODS
+    bld = maps_build(); mod = load_module(bld, MAPS_MODS)
+    snap, R, pre = maps_world(bld, n, nb, it, dt=dt, fptype=fptype)
+    ex = Exec(mod, snap, RealDom()); st = State(); assert ex.garbage_heap
+    D = c08.sym_data(ex, st, R, nb, n)
+    F = Fraction
+    ctor = {'rflin': ('e_new_rf_lin', [R['in'], R['out'], F(f32(0.07)), F(f32(5e8)), it]), 'rfsin': ('e_new_rf_sin', [R['in'], R['out'], F(f32(2e-3)), F(f32(1.2e6)), F(f32(5e8)), F(f32(3e4)), it]),
+            'drift': ('e_new_drift', [R['in'], R['out'], R['slip'], F(f32(2.5e9)), it]), 'fp': ('e_new_fp', [R['in'], R['out'], fptype, 1, F(f32(0.02)), dt]), 'identity': ('e_new_identity', [R['in'], R['out']])}[what]
+    outs = []
+    for s0 in run_paths(ex, st, ctor[0], ctor[1]):
+        outs += run_paths(ex, s0, 'e_apply', [s0.retval])
+    account(res, ex, mod, outs)
+    bad = []; dec = []
+    for s in outs:
+        cells = get_reals(ex, s, R['data_out'], nb * n * n)
+        bad += [i for i, c in enumerate(cells) if any(x.startswith('garb') for x in syms_of(c))]
+        dec += [str(c)[:80] for c in s.pc[len(st.pc):] if any(x.startswith('garb') for x in syms_of(c))]
+    res.obs.append(Ob('%s n=%d nb=%d it=%d: built in storage of arbitrary content and applied once - no cell of the target grid depends on what the storage held before (%d paths)' % (what, n, nb, it, len(outs)),
+                      'holds' if not bad else 'violated', key='heap-independent', detail='' if not bad else 'cells %s mention never-written heap bytes' % bad[:6], cex=None if not bad else {'replay': 'structural', 'cells': bad[:6]}))
+    res.obs.append(Ob('%s n=%d nb=%d it=%d: no decision of constructor or step depends on never-written storage' % (what, n, nb, it), 'holds' if not dec else 'violated', key='heap-independent', detail=str(dec[:2])))
+    witness(res, '%s: the target grid depends on the data (n=%d)' % (what, n), [], z3.BoolVal(any(occurs(c, D[0][(n // 2) * n + n // 2]) for c in get_reals(ex, outs[0], R['data_out'], n * n))))
 
 def job_field_observers(res, n, N, spacing, buckets):
     bld = field_common.field_build(); mod = load_module(bld, field_common.FIELD_MODS)
@@ -173,6 +200,7 @@ def main(tier):
     import preloop
     jobs += [(job_steps_read_only_the_grid, (8, 2, 4)), (job_steps_read_only_the_grid, (9, 1, 2))]
     jobs += [(preloop.job_rw_sets, ()), (preloop.job_rw_sets, (5, 1))]      # what an observer computes is a function of what it observes: moments from projection and charges only - not from what an earlier observation left behind
+    jobs += [(job_heap_independent, (w, 6, 2, 3)) for w in ('rflin', 'rfsin', 'drift', 'fp', 'identity')] + [(job_heap_independent, ('fp', 6, 1, 4, 4, 1))]
     jobs += mainloop.jobs_for('C12', tier)
     K = 2 if tier == 'quick' else 3
     chk.bounds = {'frame conditions': 'write sets of symbolic runs of every observer call on small grids (4-8), all data symbolic', 'schedule independence': 'all paths of main\'s loop with <= %d iterations; symbolic cadences and presence flags' % K}
